@@ -47,7 +47,9 @@ func r3Verdict(x []byte, k ed25519.PublicKey) c01Verdict {
 }
 
 // libAccepts presents X under K. accepted = an Authorizer was returned.
-func libAccepts(x []byte, src biscuit.PublickKeyByIDProjection) (accepted bool, stage string, errText string, iters int64, pi *lib.PanicInfo) {
+var c01UnrelatedKey, _ = lib.KeyPair(1, "c01-unrelated-key-nobody-signs-with")
+
+func libAccepts(x []byte, src biscuit.PublickKeyByIDProjection) (accepted bool, stage string, errText string, iters int64, unstable string, pi *lib.PanicInfo) {
 	before := datalog.VerifCounters()["run.iter"]
 	pi = lib.Try(func() {
 		b, err := biscuit.Unmarshal(x)
@@ -56,6 +58,22 @@ func libAccepts(x []byte, src biscuit.PublickKeyByIDProjection) (accepted bool, 
 			return
 		}
 		_, err = b.AuthorizerFor(src, lib.BigLimits())
+		// the verdict belongs to (bytes, key), not to the call: the same token object is
+		// presented again under the same key, under an unrelated key, and under the first key
+		// once more; an object that remembers an earlier verification must not answer differently
+		for k := 0; k < 3; k++ {
+			s2 := src
+			if k == 1 {
+				s2 = biscuit.WithSingularRootPublicKey(c01UnrelatedKey)
+			}
+			_, e2 := b.AuthorizerFor(s2, lib.BigLimits())
+			if k != 1 && (e2 == nil) != (err == nil) {
+				unstable = fmt.Sprintf("AuthorizerFor on the same token object and key: first call err=%v, call %d err=%v", err, k+2, e2)
+			}
+			if k == 1 && e2 == nil {
+				unstable = "AuthorizerFor accepted the token under an unrelated random key after it had been presented under another key"
+			}
+		}
 		if err != nil {
 			stage, errText = "authorizer", err.Error()
 			return
@@ -86,13 +104,16 @@ func c01Present(c *core.C, m Mutant, origin string, keys map[string]ed25519.Publ
 			src = biscuit.WithRootPublicKeys(map[uint32]ed25519.PublicKey{*keyID: k}, nil)
 			via = "by-id"
 		}
-		acc, stage, errText, iters, pi := libAccepts(m.Bytes, src)
+		acc, stage, errText, iters, unstable, pi := libAccepts(m.Bytes, src)
 		wit := func() any {
 			return map[string]any{"class": m.Class, "origin": origin, "key": kn, "via": via, "token_hex": hex.EncodeToString(m.Bytes), "key_hex": hex.EncodeToString(k), "reference": v, "reference_why": v.why, "library_stage": stage, "library_error": errText}
 		}
 		if pi != nil {
 			c.Violate("verify-panic/"+pi.Site, fmt.Sprintf("%s mutant under %s key: %s", m.Class, kn, pi.Msg), wit())
 			continue
+		}
+		if unstable != "" {
+			c.Violate("verdict-changes-on-repeat/"+m.Class, unstable, wit())
 		}
 		if !acc && iters != 0 {
 			c.Violate("datalog-before-rejection", fmt.Sprintf("%d Datalog iterations ran before the token was rejected", iters), wit())
@@ -268,7 +289,7 @@ func c01Samples(c *core.C) {
 		c.Count("samples_with_valid_chain", 1)
 		// the accept obligation holds only for tokens the library regards as well-formed:
 		// some samples carry newer schema versions that this library legitimately refuses
-		baseOK, _, _, _, _ := libAccepts(b, biscuit.WithSingularRootPublicKey(pub))
+		baseOK, _, _, _, _, _ := libAccepts(b, biscuit.WithSingularRootPublicKey(pub))
 		for _, m := range chainMutants(c.R, c.Seed, env, nil, nil) {
 			if !baseOK {
 				m.MustAccept = false
@@ -322,12 +343,13 @@ func c01Run(c *core.C) {
 	}
 }
 
-var c01Classes = []string{"M1-flip-block", "M1-flip-nextkey", "M1-flip-signature", "M1-flip-proof", "M2-swap-nextkeys", "M3-rekey-alone", "M3-rekey-resign-suffix", "M4-swap-blocks", "M4-delete-block", "M4-duplicate-block", "M5-truncate-original-proof", "M5-truncate-attacker-secret", "M5-truncate-attacker-seal", "M6-splice-same-root", "M6-splice-other-root", "M7-proof-kind-swap", "M7-proof-zero-length", "M7-seal-over-block-only", "M7-secret-built-from-announced-key", "M7-seal-built-from-announced-key","M8-resigned-by-attacker-root", "M9-algorithm", "M10-key-length", "M10-signature-length", "M10-proof-length", "M11-append-with-guessed-key", "M11-append-to-sealed-keep-seal", "M12-raw-bitflip", "M13-reencode", "M13-holder-seals", "M13-holder-appends", "M13-library-token", "M13-fresh-chain-by-reference-writer"}
+var c01Classes = []string{"M1-flip-block", "M1-flip-nextkey", "M1-flip-signature", "M1-flip-proof", "M2-swap-nextkeys", "M3-rekey-alone", "M3-rekey-resign-suffix", "M4-swap-blocks", "M4-delete-block", "M4-duplicate-block", "M5-truncate-original-proof", "M5-truncate-attacker-secret", "M5-truncate-attacker-seal", "M6-splice-same-root", "M6-splice-other-root", "M7-proof-kind-swap", "M7-proof-zero-length", "M7-seal-over-block-only", "M7-secret-built-from-announced-key", "M7-seal-built-from-announced-key", "M8-resigned-by-attacker-root", "M9-algorithm", "M10-key-length", "M10-signature-length", "M10-proof-length", "M11-append-with-guessed-key", "M11-append-to-sealed-keep-seal", "M12-raw-bitflip", "M13-reencode", "M13-holder-seals", "M13-holder-appends", "M13-library-token", "M13-fresh-chain-by-reference-writer"}
 
 func init() {
 	core.Register(&core.Prop{
-		ID:    "C01",
-		Level: "fault_enumeration",
+		ID:        "C01",
+		MinCounts: map[string]int{"deep_fork_families": 40},
+		Level:     "fault_enumeration",
 		Rule: "case 0: the sample corpus (every .bc file under its published root key and a random key, and the full mutation catalogue on every sample whose chain is valid). cases 1..N: a seeded token family (build + 3-6 append/seal/re-load steps, optional root key id; every third family also grows one chain to 3, 5, 6 or 7 attenuation blocks and attenuates that parent twice - every member of the family, the forked siblings included, must be accepted under the matching root); two members get the whole mutation catalogue M1-M13 of DESIGN appendix C (bit flips in every signed field and the proof, key/signature swaps, re-keying with and without re-signing the suffix, block swap/rotate/delete/duplicate, truncation with original/attacker/sibling proofs, splices from same-root and other-root tokens, proof kind swaps, seal over block bytes only, re-signing by an attacker root, algorithm numbers, key/signature/proof lengths, appending to sealed tokens, raw bit flips and truncations), each mutant presented under 4 keys (true root, stranger root, random, unrelated attacker), half of the time through the key-id map. Last cases: EVERY single-bit flip and EVERY prefix of one serialized token. Each mutant is decided by the independent chain verifier R3; acceptance = AuthorizerFor returned an authorizer; the run.iter hook counter must not move before a rejection. " +
 			"Non-trivial = distinct (mutant bytes, key) pairs that R3 decodes canonically.",
 		Assumptions: []string{"ed25519 itself is trusted (both sides call crypto/ed25519.Verify)", "a mutant R3 cannot decode canonically carries only the no-panic obligation", "R3 accepting while the library rejects is a violation only for library-made tokens and R3-written spec-conformant chains"},
